@@ -351,9 +351,9 @@ func c07Paths(thorough bool) []string {
 }
 
 func c07Run(r *core.Run) {
-	r.SetBudget(80 * time.Second)
+	r.SetBudget(100 * time.Second)
 	if r.Thorough() {
-		r.SetBudget(10 * time.Minute)
+		r.SetBudget(20 * time.Minute)
 	}
 	paths := c07Paths(r.Thorough())
 	r.Rule = fmt.Sprintf("engine E: %d route sets (", len(c07Sets)) + "each segment kind alone and mixed, capture-limited match-alls, optional, header-constrained, multi-method, regex-active literals, empty) x NotFound {default, user chain} x application middleware {absent, present} x 6 method strings (incl. lower-case, unknown and empty; the six remaining known methods on every 8th path) x every byte string of length <=3 (thorough 4) over {/ a % 2 F z NUL 0xff { ? .} appended to 4-7 prefixes plus three 64 KiB paths x header sets; oracle: no panic, the application middleware starts exactly once, the chain that runs is the one the reference priority picks (or not-found), and the request served three times gives identical observations; non-trivial = request whose path contains a byte outside [a-z/] or whose method is unknown"
@@ -361,7 +361,7 @@ func c07Run(r *core.Run) {
 	r.Bounds["route_sets"] = len(c07Sets)
 	r.Bounds["methods"] = c07Methods
 	if !r.Thorough() {
-		r.Bounds["quick_reduction"] = "all 6 method strings only with user NotFound and middleware both present; GET alone with neither; GET and the empty method with exactly one of them, on every third path; the six remaining known methods on every 16th path; thorough runs every combination"
+		r.Bounds["quick_reduction"] = "all 6 method strings only with user NotFound and middleware both present (other than GET and the empty one on every second path); GET alone with neither; GET and the empty method with exactly one of them, on every third path; the six remaining known methods on every 16th path; thorough runs every combination"
 	}
 	r.Assumptions = []string{"the path is given as req.URL.Path (arbitrary bytes)", "first value of a repeated header is the one matched (http.Header.Get)"}
 	type job struct {
@@ -384,6 +384,9 @@ func c07Run(r *core.Run) {
 					stride := 1
 					if !r.Thorough() && mw != nf {
 						stride = 3 // quick: the mixed configurations on every third path
+					}
+					if !r.Thorough() && mw && nf && m != "GET" && m != "" {
+						stride = 2 // quick: with both present, the other method strings on every second path
 					}
 					jobs = append(jobs, job{si, nf, mw, m, stride})
 				}
